@@ -128,7 +128,14 @@ def run(ctx):
                         a2 = map_coordinates(field(name, tsec + 3600), (k, y, x), order=1, prefilter=False)
                         want = a1 * (1 - q) + a2 * q
                         ok = np.allclose(got, want, rtol=1e-9, atol=1e-12)
-                        pred = "C13.interp.whole_hour" if q == 0 else "C13.interp.time_weights"
+                        # the known finding F-C13a explains exactly one wrong answer: the two *right* hourly fields
+                        # blended with mirrored weights.  Anything else (a field of another hour, day or file) is a
+                        # different defect and is reported under its own predicate.
+                        mirrored = a1 * q + a2 * (1 - q)
+                        if ok or np.allclose(got, mirrored, rtol=1e-9, atol=1e-12):
+                            pred = "C13.interp.whole_hour" if q == 0 else "C13.interp.time_weights"
+                        else:
+                            pred = "C13.interp.wrong_fields"
                         ctx.oracle(ok, pred, SITE + "::interp",
                                    "%s at %d s into the hour (q=%.4f): served %r, time interpolation of the bracketing hourly fields %r" % (name, tsec % 3600, q, got.tolist(), want.tolist()), cs)
                         # history independence: a fresh database gives the same answer
